@@ -344,6 +344,11 @@ func (x *Exec) materialize(st *State, v Value) {
 }
 
 func (x *Exec) applyContract(fr *Frame, st *State, ct *Contract, key string, sig *types.Signature, fn *ssa.Function, args []Value, pos token.Pos, k func(*State, Value)) {
+	if ct.Kind == "func" && ct.Trusted == "" && !ct.HasAssigns && !ct.Pure {
+		// the caller havocs exactly the callee's assigns set: a verified callee without one would be
+		// assumed to write nothing without that ever being checked
+		x.abort("callee %s is under contract but has no assigns clause (write `assigns nothing` or list what it writes)", key)
+	}
 	for _, a := range args {
 		x.materialize(st, a)
 	}
